@@ -4,7 +4,7 @@ CONSTANTS W = 2
           Deep = {"bool", "int", "int8", "int16", "int32", "int64", "uint", "uint8", "uint16", "uint32", "uint64",
                   "float32", "float64", "string", "bytes", "time",
                   "N1", "N2", "RPtr", "RPtrOE", "RSlice", "RPSlice", "RMap", "RMapV", "MA", "MB", "EA", "EB", "RSS"}
-          OptSet = {"default", "useall", "export", "exporttop", "useall_export", "tng", "tng_export", "tng_exporttop"}
+          OptSet = {"default", "useall", "export", "exporttop", "useall_export", "tng", "tng_export", "tng_exporttop", "throw", "custom"}
           Reps = 1
           RepW = 0
           Which = "all"
